@@ -6,6 +6,7 @@ import (
 	"context"
 	"crypto/rand"
 	"crypto/tls"
+	"crypto/x509"
 	"encoding/binary"
 	"fmt"
 	"net"
@@ -148,10 +149,12 @@ func c08IPListener(r *simcore.Run, tp *simcore.Tape) map[string]any {
 			burst := 1 + tp.Intn(6, "burst")
 			for i := 0; i < burst; i++ {
 				var pl []byte
-				switch tp.Intn(6, "kind") {
+				switch tp.Intn(7, "kind") {
 				case 0:
 					pl = make([]byte, tp.Intn(2049, "len"))
 					rand.Read(pl)
+				case 6: // correctly sealed under a valid cookie, with a unique identifier of unusual length
+					pl = c08SealedOddUID(r, tp, hdr(), prov)
 				case 1:
 					pl = c08Mutate(tp, c09ValidNTS(hdr(), prov))
 				case 2: // NTS-shaped request with hostile extension lengths
@@ -222,6 +225,24 @@ func c08OneCookieSevenPlaceholders(hdr []byte, prov *ntske.Provider) []byte {
 	return c08RawNTSRequest(hdr, ec.Encode(), 7, c2s)
 }
 
+// c08SealedOddUID is what a holder of a valid cookie can send: a request whose
+// authenticator verifies, with a unique identifier field of a length the project's own
+// client never produces, and a varying number of placeholders.
+func c08SealedOddUID(r *simcore.Run, tp *simcore.Tape, hdr []byte, prov *ntske.Provider) []byte {
+	r.Probe("sealed-request-odd-identifier")
+	c2s, s2c := make([]byte, 32), make([]byte, 32)
+	rand.Read(c2s)
+	rand.Read(s2c)
+	key := prov.Current()
+	sc := ntske.ServerCookie{Algo: ntske.AES_SIV_CMAC_256, C2S: c2s, S2C: s2c}
+	ec, _ := sc.EncryptWithNonce(key.Value, key.ID)
+	c08UIDLen = []int{0, 1, 4, 16, 24, 28, 31, 32, 33, 36, 64, 255}[tp.Intn(12, "uidlen")]
+	defer func() { c08UIDLen = 32 }()
+	return c08RawNTSRequest(hdr, ec.Encode(), tp.Intn(8, "nph"), c2s)
+}
+
+var c08UIDLen = 32
+
 // ---- SCION listener, forwarder, SCMP -----------------------------------------------------
 
 func c08SCIONPacket(tp *simcore.Tape, l4dst uint16, segLens []int, withAuth, withTS int, pld []byte) []byte {
@@ -278,7 +299,8 @@ func c08SCIONListener(r *simcore.Run, tp *simcore.Tape) map[string]any {
 	scDrawFamily(r)
 	w := newSCIONWorld(r, 0, 1)
 	auth := tp.Bool(1, 2, "auth")
-	w.startServers(1, auth, 0, nil, false)
+	prov := ntske.NewProvider()
+	w.startServers(1, auth, 0, prov, false)
 	replies := 0
 	w.net.OnSend = func(d *simnet.Datagram) {
 		if d.SrcConn != nil && d.SrcConn.Host() == w.srv {
@@ -286,11 +308,24 @@ func c08SCIONListener(r *simcore.Run, tp *simcore.Tape) map[string]any {
 		}
 	}
 	rtr := netip.AddrPortFrom(netip.MustParseAddr(scRouterIP(0)), scRouterPort)
-	ntpReq := func() []byte {
+	plainReq := func() []byte {
 		h := make([]byte, 48)
 		rand.Read(h[1:])
 		h[0] = 0x23
 		return h
+	}
+	// the payload is a plain request most of the time; otherwise NTS-shaped: valid,
+	// mutated, or correctly sealed with an unusual unique identifier
+	ntpReq := func() []byte {
+		switch tp.Intn(8, "pld") {
+		case 0:
+			return c09ValidNTS(plainReq(), prov)
+		case 1:
+			return c08Mutate(tp, c09ValidNTS(plainReq(), prov))
+		case 2:
+			return c08SealedOddUID(r, tp, plainReq(), prov)
+		}
+		return plainReq()
 	}
 	crafted, sentinels := 0, 0
 	w.goSafe("driver", func() {
@@ -369,7 +404,7 @@ func c08SCIONListener(r *simcore.Run, tp *simcore.Tape) map[string]any {
 			}
 			// sentinel: a well-formed NTP request over SCION on the service port
 			n0 := replies
-			good := c08SCIONPacket(tp, scSvcPort, []int{3}, -1, -1, ntpReq())
+			good := c08SCIONPacket(tp, scSvcPort, []int{3}, -1, -1, plainReq())
 			w.net.Inject(w.net.NewDatagram(rtr, netip.AddrPortFrom(netip.MustParseAddr(scSrvIP), scSvcPort), good, "sentinel"), 10*time.Microsecond)
 			// and an echo request on the port that was attacked
 			echo := buildSCION(scCliIA, scSrvIA, scCliIP, scSrvIP, 0, 0, []int{2}, slayers.SCMPTypeEchoRequest, []byte("sentinel echo"))
@@ -891,22 +926,66 @@ func c08CSPTPClient(r *simcore.Run, tp *simcore.Tape) map[string]any {
 }
 
 func c08KEClient(r *simcore.Run, tp *simcore.Tape) map[string]any {
-	// the C20 world's scripted peer with hostile record streams; the client then builds
-	// and sends an NTS request from whatever the exchange left behind
-	w := newIPWorld(r, 0, 0)
-	w.net.TLSClientHost = w.cli
-	w.net.Names = map[string]netip.Addr{keHost: netip.MustParseAddr(ipSrvIP)}
-	cert, pool := mkCert([]string{keHost}, []string{ipSrvIP})
-	w.startListeners(1, ntske.NewProvider())
-	lst, _ := w.net.ListenStream(hp(ipSrvIP, kePort), nil)
+	// the C20 world's scripted peer with hostile record streams; the client (IP, or SCION
+	// every third run) then builds and sends an NTS request from whatever the exchange left
+	overSCION := tp.Bool(1, 3, "ke-over-scion")
+	var (
+		nw      *simnet.Net
+		srvIP   string
+		spawn   func(string, func())
+		cliNode *simcore.Node
+		measure func()
+		pool    *x509.CertPool
+		cert    tls.Certificate
+	)
+	if overSCION {
+		scDrawFamily(r)
+		w := newSCIONWorld(r, 0, 1)
+		w.net.TLSClientHost = w.cli
+		w.net.Names = map[string]netip.Addr{keHost: netip.MustParseAddr(scSrvIP)}
+		cert, pool = mkCert([]string{keHost}, []string{scSrvIP})
+		w.startServers(1, false, 0, ntske.NewProvider(), false)
+		nw, srvIP, spawn, cliNode = w.net, scSrvIP, w.goSafe, w.cli.Node
+		cl := &client.SCIONClient{Log: quietLog(), Filter: &recFilter{}}
+		cl.Auth.NTSEnabled = true
+		cl.Auth.NTSKEFetcher.TLSConfig = tls.Config{NextProtos: []string{keALPN}, ServerName: keHost, MinVersion: tls.VersionTLS13, RootCAs: pool}
+		cl.Auth.NTSKEFetcher.Port = fmt.Sprint(kePort)
+		cl.Auth.NTSKEFetcher.Log = quietLog()
+		var segs []int
+		if tp.Bool(2, 3, "path") {
+			segs = []int{2 + tp.Intn(5, "h")}
+		}
+		path := w.mkPath(0, segs, 1, scCliIA, scSrvIA)
+		measure = func() {
+			ctx, cancel := simsync.WithTimeout(context.Background(), 200*time.Millisecond)
+			defer cancel()
+			laddr, raddr := w.udpAddrs()
+			tag := simcore.Tag()
+			client.MeasureClockOffsetSCION(ctx, quietLog(), []*client.SCIONClient{cl}, laddr, raddr, []snet.Path{path})
+			simcore.SetTag(tag)
+		}
+		r.Probe("ntske-client-over-scion")
+	} else {
+		w := newIPWorld(r, 0, 0)
+		w.net.TLSClientHost = w.cli
+		w.net.Names = map[string]netip.Addr{keHost: netip.MustParseAddr(ipSrvIP)}
+		cert, pool = mkCert([]string{keHost}, []string{ipSrvIP})
+		w.startListeners(1, ntske.NewProvider())
+		nw, srvIP, spawn, cliNode = w.net, ipSrvIP, w.goSafe, w.cli.Node
+		cl := &client.IPClient{Log: quietLog()}
+		configureIPClientNTS(cl, fmt.Sprintf("%s:%d", keHost, kePort), quietLog())
+		cl.Auth.NTSKEFetcher.TLSConfig.RootCAs = pool
+		measure = func() { w.measureIP(cl, 200*time.Millisecond) }
+	}
+	lst, _ := nw.ListenStream(hp(srvIP, kePort), nil)
 	crafted := 0
-	w.goSafe("ke-accept", func() {
+	spawn("ke-accept", func() {
 		for k := 0; ; k++ {
 			raw, err := lst.AcceptRaw()
 			if err != nil {
 				return
 			}
-			w.goSafe(fmt.Sprintf("ke%d", k), func() {
+			spawn(fmt.Sprintf("ke%d", k), func() {
 				tc := tls.Server(raw, &tls.Config{Certificates: []tls.Certificate{cert}, MinVersion: tls.VersionTLS13, NextProtos: []string{keALPN}})
 				if tc.Handshake() != nil {
 					raw.Close()
@@ -919,25 +998,34 @@ func c08KEClient(r *simcore.Run, tp *simcore.Tape) map[string]any {
 				if tp.Bool(3, 4, "aead") {
 					msg = append(msg, keRecord{Type: 4, Critical: true, Body: u16(15)}.bytes()...)
 				}
+				wellFormed := tp.Bool(1, 3, "well-formed-rest")
 				for i := 0; i < tp.Intn(10, "nrec"); i++ {
 					typ := []uint16{5, 5, 5, 6, 7, 4, 99}[tp.Intn(7, "rtype")]
+					if wellFormed && typ != 6 && typ != 7 {
+						typ = 5
+					}
 					var body []byte
 					switch typ {
 					case 5:
 						body = make([]byte, []int{0, 1, 3, 100, 124, 300, 1000, 2000}[tp.Intn(8, "cklen")])
+						if wellFormed {
+							body = make([]byte, 100+4*tp.Intn(8, "ckl"))
+						}
 					case 6:
-						body = [][]byte{[]byte(ipSrvIP), []byte("not-an-ip"), {}, []byte("::1"), []byte("256.1.1.1")}[tp.Intn(5, "srv")]
+						body = [][]byte{[]byte(srvIP), []byte("not-an-ip"), {}, []byte("::1"), []byte("256.1.1.1"), []byte("time.example.net"), []byte("fe80::1%eth0"), []byte("1-ff00:0:111,10.0.0.1")}[tp.Intn(8, "srv")]
 					case 7:
-						body = [][]byte{u16(123), {1}, {}, u16(0)}[tp.Intn(4, "portb")]
+						body = [][]byte{u16(123), {1}, {}, u16(0), u16(65535)}[tp.Intn(5, "portb")]
 					case 4:
 						body = [][]byte{u16(15), {}, {15}, {0, 15, 0, 16}}[tp.Intn(4, "aeadb")]
 					default:
 						body = make([]byte, tp.Intn(50, "ul"))
 					}
-					rand.Read(body[min(len(body), 20):])
+					if typ != 6 && typ != 7 {
+						rand.Read(body[min(len(body), 20):])
+					}
 					msg = append(msg, keRecord{Type: typ, Critical: typ == 4, Body: body}.bytes()...)
 				}
-				if tp.Bool(3, 4, "eom") {
+				if wellFormed || tp.Bool(3, 4, "eom") {
 					msg = append(msg, keRecord{Type: 0, Critical: true}.bytes()...)
 				}
 				tc.Write(msg)
@@ -946,23 +1034,20 @@ func c08KEClient(r *simcore.Run, tp *simcore.Tape) map[string]any {
 			})
 		}
 	})
-	cl := &client.IPClient{Log: quietLog()}
-	configureIPClientNTS(cl, fmt.Sprintf("%s:%d", keHost, kePort), quietLog())
-	cl.Auth.NTSKEFetcher.TLSConfig.RootCAs = pool
-	w.goSafe("driver", func() {
+	spawn("driver", func() {
 		defer r.Finish()
 		for k := 0; k < 8 && r.Violation() == nil; k++ {
-			if r.Sleep(fmt.Sprintf("gap:%d", k), w.cli.Node, 50*time.Millisecond).Killed {
+			if r.Sleep(fmt.Sprintf("gap:%d", k), cliNode, 50*time.Millisecond).Killed {
 				return
 			}
-			w.measureIP(cl, 200*time.Millisecond)
+			measure()
 			r.Probe("sentinel-answered") // the call returned
 		}
 	})
 	c08Finish(r, "ntske-client")
 	r.Count("crafted", int64(crafted))
 	r.FaultN("hostile-input", int64(crafted))
-	return map[string]any{"hostile_exchanges": crafted}
+	return map[string]any{"hostile_exchanges": crafted, "over_scion": overSCION}
 }
 
 // c08RawNTSRequest builds an NTS request with one cookie and nph placeholders with the
@@ -976,7 +1061,7 @@ func c08RawNTSRequest(hdr []byte, cookie []byte, nph int, c2s []byte) []byte {
 		b = append(b, byte(typ>>8), byte(typ), byte((4+len(body))>>8), byte(4+len(body)))
 		b = append(b, body...)
 	}
-	uid := make([]byte, 32)
+	uid := make([]byte, c08UIDLen)
 	rand.Read(uid)
 	put(0x0104, uid)
 	put(0x0204, cookie)
